@@ -153,7 +153,7 @@ class Monitor:
                 bits = (k in (syntax_config.get(t, {}).get(kind) or {}), k in (syntax_config.get(s, {}).get(kind) or {}),
                         k in (glob.get(t, {}).get(kind) or {}), k in (glob.get(s, {}).get(kind) or {}),
                         k in (user.get(kind) or {}))
-                sname = s if s in KNOWN_SYNTAXES else ('<unknown-%s>' % t)
+                sname = s if s in KNOWN_SYNTAXES else ('<unknown-%s>' % t if isinstance(t, str) else '<unknown>')
                 self.cells.add(sha(canon([list(bits), sname, kind]))[:12])
 
     # -- no-mutation ------------------------------------------------------------------------
